@@ -1,6 +1,7 @@
 """C15 -- configurations are validated; thresholds normalised to one value per label."""
 import atexit
 import copy
+import enum
 import itertools
 import json
 import os
@@ -17,6 +18,8 @@ from harness.lib.core import Corr, Prop, qlit, slit, llit, blit
 
 
 def enc(v):
+    if isinstance(v, enum.Enum):
+        return "enum:" + v.name  # only EvaluationTask members are generated (see live())
     if isinstance(v, tuple):
         return {"tuple": [enc(x) for x in v]}
     if isinstance(v, list):
@@ -345,6 +348,69 @@ def base_frame(task):
     return "base_link" if task in TASKS_3D or task in ("sensing", "foo") else "cam_front"
 
 
+# The tasks each manager supports, pinned (NOT read from the class under test: the model reads the translated
+# `_support_tasks`, so an oracle that read it too would accept whatever that list says).
+_GOLDEN = {}
+
+
+def supported(cls):
+    if not _GOLDEN:
+        _GOLDEN.update(json.load(open(os.path.join(core.ROOT, "corpus", "C15", "golden", "supported_tasks.json"))))
+    return _GOLDEN[cls]
+
+
+# EvaluationTask members by name -> value.  A member given as `evaluation_task` stands for its value
+# (EvaluationTask.__eq__ compares with str by value); encoded in cases as "enum:<NAME>".
+ENUM_TASKS = {"DETECTION": "detection", "TRACKING": "tracking", "PREDICTION": "prediction", "SENSING": "sensing",
+              "DETECTION2D": "detection2d", "TRACKING2D": "tracking2d", "CLASSIFICATION2D": "classification2d",
+              "FP_VALIDATION": "fp_validation", "FP_VALIDATION2D": "fp_validation2d"}
+
+
+def is_enum_task(k, j):
+    return k == "evaluation_task" and isinstance(j, str) and j.startswith("enum:")
+
+
+def plain(k, j):
+    """Encoded dictionary value -> the encoded value the model and the oracle reason about."""
+    return ENUM_TASKS[j[5:]] if is_enum_task(k, j) else j
+
+
+def live(k, j):
+    """Encoded dictionary value -> the Python value handed to the library."""
+    if is_enum_task(k, j):
+        from perception_eval.common.evaluation_task import EvaluationTask
+
+        return EvaluationTask[j[5:]]
+    return dec(j)
+
+
+def frames_of(case):
+    """The frame ids of a case as a list of strings (str -> one id; list / tuple -> its items)."""
+    fr = dec(case["frame"])
+    return [fr] if isinstance(fr, str) else list(fr)
+
+
+# documented label names (docs/en/perception/label.md): name -> member, without / with merge_similar_labels
+PINNED_LABELS = {
+    ("autoware", False): {"car": "CAR", "bicycle": "BICYCLE", "pedestrian": "PEDESTRIAN", "motorbike": "MOTORBIKE",
+                          "bus": "BUS", "truck": "TRUCK"},
+    ("autoware", True): {"car": "CAR", "bicycle": "BICYCLE", "pedestrian": "PEDESTRIAN", "motorbike": "BICYCLE",
+                         "bus": "CAR", "truck": "CAR"},
+}
+PER_LABEL_SCALARS = {"center_distance_thresholds": [[1.0], [2.0]], "plane_distance_thresholds": [2.0, 3.0], "iou_2d_thresholds": 0.5,
+                     "iou_3d_thresholds": [0.5], "min_point_numbers": 0, "max_distance": 100.0, "min_distance": [10.0],
+                     "max_x_position": 102.5, "max_y_position": [100.0], "max_matchable_radii": 5.0}
+
+
+def any_label_count(cfg):
+    """A copy of `cfg` whose per-label values are scalars / singletons, valid for any number of target labels."""
+    c = copy.deepcopy(cfg)
+    for k, v in PER_LABEL_SCALARS.items():
+        if k in c:
+            c[k] = copy.deepcopy(v)
+    return c
+
+
 CORRUPT = [5.0, "a", [], [1.0], [1.0, 2.0], [[1.0]], True, 0, [1.0, 2.0, 3.0, 4.0], [[1.0, 2.0, 3.0, 4.0]], [1.0, "a", 2.0, 3.0],
            [[1.0], [1.0, 2.0]], "autoware", ["car", "bus"], (1.0, 2.0, 3.0, 4.0)]
 ADDITIONS = {
@@ -355,14 +421,18 @@ ADDITIONS = {
     "iou_3d_thresholds": [0.25, 0.5], "ignore_attributes": ["x"], "target_labels": ["car"],
     # unknown keys (the second is the one the repository's own tests and sample scenario pass)
     "foo_thresholds": [0.8], "iou_bev_thresholds": [0.5],
+    # ... and unknown keys that do not look like thresholds: two typos of filter keys, one key of the sensing configuration
+    "max_x_postion": 100.0, "min_points_number": [0], "box_scale_0m": 1.0,
 }
 HARMLESS_ADDITIONS = ("confidence_threshold", "target_uuids", "matching_label_policy", "count_label_number",
                       "uuid_matching_first", "ignore_attributes")
 KEY_SPECIFIC = {
-    "evaluation_task": ["sensing", "foo", "Detection", None, 5.0, ["detection"]] + list(TASKS_3D) + list(TASKS_2D),
+    "evaluation_task": ["sensing", "foo", "Detection", None, 5.0, ["detection"]] + list(TASKS_3D) + list(TASKS_2D)
+                       + ["enum:DETECTION", "enum:TRACKING", "enum:FP_VALIDATION", "enum:DETECTION2D", "enum:CLASSIFICATION2D", "enum:SENSING"],
     "label_prefix": ["autoware", "traffic_light", "blinker", "brake_lamp", "Autoware", None, 5.0, ["autoware"]],
     "matching_label_policy": ["default", "ALLOW_UNKNOWN", "allow_any", "strict", "", None, 5.0, ["default"], 0],
-    "target_labels": [None, [], ["car"], ["car", "bus", "zzz"], "car", "", 5.0, [5.0], ["car", 5.0], ("car", "bus"), [[]]],
+    "target_labels": [None, [], ["car"], ["car", "bus", "zzz"], "car", "", 5.0, [5.0], ["car", 5.0], ("car", "bus"), [[]],
+                      ["car", "car"], ["car", "truck"]],
     "merge_similar_labels": [True, None, "a"], "allow_matching_unknown": [False, None, "a"],
     "count_label_number": [False, None], "uuid_matching_first": [True, None],
     "ignore_attributes": [None, [], "a"], "target_uuids": [None, [], "a"],
@@ -488,7 +558,7 @@ class ConfigCorr(Corr):
         return CONFIG_HEADER + self.intern.text()
 
     def _mk(self, cfg, frame, valid=False, tag=""):
-        return {"cfg": [[k, enc(v)] for k, v in cfg.items()], "frame": frame, "valid": valid, "tag": tag}
+        return {"cfg": [[k, enc(v)] for k, v in cfg.items()], "frame": enc(frame), "valid": valid, "tag": tag}
 
     def cases(self, tier, rng):
         thorough = tier != "quick"
@@ -520,6 +590,21 @@ class ConfigCorr(Corr):
             for fr in (["base_link", "map"], ["cam_front", "cam_back"], "map", "cam_front", "BASE_LINK", "foo", [], ["base_link"], ["base_link", "foo"]):
                 if fr != frame:
                     out.append(self._mk(b, fr, tag=f"frames {task}/{variant}"))
+            # ... and as tuples (frame_id: Union[str, Sequence[str]]): one id is as good as the plain string
+            supported_task = task in TASKS_3D + TASKS_2D and task != "prediction"
+            for fr in ((frame,), ("base_link", "map"), ("cam_front", "cam_back"), ()):
+                out.append(self._mk(b, fr, valid=supported_task and fr == (frame,), tag=f"frames (tuple) {task}/{variant}"))
+            # target labels: repeated names, names that merge to one label, an order that is neither sorted nor the
+            # enum's, with per-label values that fit any number of labels; merge_similar_labels on and off
+            if task != "foo":
+                tls = ([["red", "green"], ["green", "green"]] if variant == "traffic_light" else
+                       [["car", "car"], ["car", "truck"], ["truck", "car", "bus"], ["pedestrian", "car"], ["motorbike", "bicycle", "car"]])
+                for tl in tls:
+                    for merge in (False, True):
+                        c = any_label_count(b)
+                        c.update(target_labels=list(tl), merge_similar_labels=merge)
+                        out.append(self._mk(c, frame, valid=supported_task and len(set(tl)) == len(tl) and not merge,
+                                            tag=f"target_labels {tl} merge={merge} {task}/{variant}"))
             muts = mutations_of(b)
             for m in muts:
                 c = copy.deepcopy(b)
@@ -565,8 +650,8 @@ class ConfigCorr(Corr):
     def run_impl(self, case):
         from perception_eval.config import PerceptionEvaluationConfig
 
-        cfg = {k: dec(v) for k, v in case["cfg"]}
-        frame = case["frame"]
+        cfg = {k: live(k, v) for k, v in case["cfg"]}
+        frame = dec(case["frame"])
         support = list(PerceptionEvaluationConfig._support_tasks)
         try:
             c = PerceptionEvaluationConfig(["/nonexistent"], frame, os.path.join(TMP_ROOT, f"r{os.getpid()}"), cfg, load_raw_data=False)
@@ -579,17 +664,38 @@ class ConfigCorr(Corr):
         def mc(x):
             return None if x is None else [enc(getattr(x, k)) for k in METRIC_KEYS]
 
+        def names(x):
+            return None if x is None else [l.name for l in x.target_labels]
+
         m = c.metrics_config
-        return {"ok": {"n": len(c.target_labels),
+        # oracle-only: the target labels every part of the configuration holds, by member name, and what the
+        # given names convert to one by one through a FRESH converter built the way the constructor builds its own
+        labels = {"config": [l.name for l in c.target_labels],
+                  "filtering_params": [l.name for l in c.filtering_params["target_labels"]],
+                  "metrics_params": [l.name for l in c.metrics_params["target_labels"]],
+                  "metrics_config": names(m), "det": names(m.detection_config), "trk": names(m.tracking_config),
+                  "cls": names(m.classification_config)}
+        tl = cfg.get("target_labels")
+        want = None
+        if tl is None or (isinstance(tl, (list, tuple)) and all(isinstance(x, str) for x in tl)):
+            from perception_eval.common.label import LabelConverter
+
+            fresh = LabelConverter(c.evaluation_task.value, cfg.get("merge_similar_labels", False), cfg["label_prefix"], False)
+            want = [fresh.convert_name(x).name for x in tl] if tl else [l.name for l in fresh.label_type]
+        return {"ok": {"n": len(c.target_labels), "labels": labels, "want_labels": want,
                        "filters": [enc(c.filtering_params[name]) for name, _ in FILTER_LISTS],
                        "det": mc(m.detection_config), "trk": mc(m.tracking_config), "cls": mc(m.classification_config),
                        "n_frames": len(c.frame_ids),
-                       "input_unchanged": [[k, enc(v)] for k, v in cfg.items()] == case["cfg"]},
+                       "input_unchanged": [[k, enc(v)] for k, v in cfg.items()] == case["cfg"]
+                       and (not isinstance(frame, list) or enc(frame) == case["frame"])},
                 "support_tasks": support}
 
     def _frames(self, case):
-        fr = case["frame"]
-        return [fr] if isinstance(fr, str) else list(fr)
+        return frames_of(case)
+
+    def _model_cfg(self, case):
+        """The dictionary as the model sees it: an EvaluationTask member is its value."""
+        return [[k, plain(k, v)] for k, v in case["cfg"]]
 
     def coq_term(self, case, obs):
         sw = switches()
@@ -604,17 +710,17 @@ class ConfigCorr(Corr):
 
             o = ("(Ok {| o_n := %d; o_filters := %s; o_det := %s; o_trk := %s; o_cls := %s |})"
                  % (ok["n"], llit([self.intern.opt(x) for x in ok["filters"]]), ol(ok["det"]), ol(ok["trk"]), ol(ok["cls"])))
-        return f"check_accept {swl} {self.intern.cfg(case['cfg'])} {llit([slit(f) for f in self._frames(case)])} {o}"
+        return f"check_accept {swl} {self.intern.cfg(self._model_cfg(case))} {llit([slit(f) for f in self._frames(case)])} {o}"
 
     def coq_debug(self, case, obs):
         sw = switches()
         swl = f"{{| rejects_both_ranges := {blit(sw['both'])}; rejects_unknown_keys := {blit(sw['unknown'])} |}}"
-        return f"accept {swl} {cfg_lit(case['cfg'])} {llit([slit(f) for f in self._frames(case)])}"
+        return f"accept {swl} {cfg_lit(self._model_cfg(case))} {llit([slit(f) for f in self._frames(case)])}"
 
     # ---- the property, stated directly on what the implementation answered
     def classify(self, case, obs):
         """List of (class, message) of everything the property forbids in this answer."""
-        cfg = {k: dec(v) for k, v in case["cfg"]}
+        cfg = {k: dec(plain(k, v)) for k, v in case["cfg"]}
         bad = []
         if "ok" not in obs:
             if case.get("valid"):
@@ -623,8 +729,10 @@ class ConfigCorr(Corr):
         ok = obs["ok"]
         n = ok["n"]
         task = cfg.get("evaluation_task")
-        if "evaluation_task" not in cfg or not isinstance(task, str) or task not in obs["support_tasks"]:
-            bad.append(("unsupported-task", f"accepted although evaluation_task={task!r} is not supported {obs['support_tasks']}"))
+        # the manager's tasks are pinned (corpus/C15/golden), not read from the class under test
+        if "evaluation_task" not in cfg or not isinstance(task, str) or task not in supported("perception"):
+            bad.append(("unsupported-task", f"accepted although evaluation_task={task!r} is not a task of PerceptionEvaluationManager "
+                                            f"{supported('perception')} (the class lists {obs['support_tasks']})"))
         if "label_prefix" not in cfg:
             bad.append(("mandatory", "accepted without label_prefix"))
         if task == "detection" and cfg.get("min_point_numbers") is None:
@@ -642,6 +750,24 @@ class ConfigCorr(Corr):
         tl = cfg.get("target_labels")
         if isinstance(tl, list) and tl and all(isinstance(x, str) for x in tl) and n != len(tl):
             bad.append(("lists", f"{len(tl)} target labels given but {n} exposed"))
+        # the labels themselves: one list, in the order given, in every part of the configuration (per-label
+        # thresholds are positional: the same length with other labels or another order misassigns them)
+        labels = ok.get("labels")
+        if labels is not None:
+            got = labels["config"]
+            for part, val in labels.items():
+                if val is not None and val != got:
+                    bad.append(("labels", f"target labels of {part} are {val} but the configuration's are {got}"))
+            if ok["want_labels"] is not None and got != ok["want_labels"]:
+                bad.append(("labels", f"target_labels={tl!r} exposed as {got}; converted name by name, in the order given: {ok['want_labels']}"))
+            prefix, merge = cfg.get("label_prefix"), cfg.get("merge_similar_labels", False)
+            pinned = PINNED_LABELS.get((prefix, merge)) if isinstance(prefix, str) and isinstance(merge, bool) else None
+            if pinned and isinstance(tl, list) and tl and all(isinstance(x, str) for x in tl) and len(got) == len(tl):
+                for i, x in enumerate(tl):
+                    if x in pinned and got[i] != pinned[x]:
+                        bad.append(("labels", f"target_labels={tl!r} (merge_similar_labels={cfg.get('merge_similar_labels', False)!r}) "
+                                              f"exposed as {got}: entry {i} should be {pinned[x]}"))
+                        break
         used = {"max_x_position": xy, "max_y_position": xy, "max_distance": dist and not xy, "min_distance": dist and not xy}
         for (name, key), val in zip(FILTER_LISTS, ok["filters"]):
             given = cfg.get(key)
@@ -695,8 +821,18 @@ class ConfigCorr(Corr):
         return True
 
     def distribution(self, cases, obs):
-        d = {"accepted": 0, "errors": {}, "per_task": {}, "known_classes": {"F7": 0, "F8": 0}, "switches": dict(switches())}
+        d = {"accepted": 0, "errors": {}, "per_task": {}, "known_classes": {"F7": 0, "F8": 0}, "switches": dict(switches()),
+             "task_as_enum_member": 0, "frames_as_tuple": 0, "target_label_order_cases": 0, "target_label_lists_compared": 0,
+             "unknown_key_accepted": {}, "supported_tasks_pinned": supported("perception")}
         for c, o in zip(cases, obs):
+            d["task_as_enum_member"] += any(is_enum_task(k, v) for k, v in c["cfg"])
+            d["frames_as_tuple"] += isinstance(c["frame"], dict)
+            d["target_label_order_cases"] += c["tag"].startswith("target_labels ")
+            if isinstance(o, dict) and "ok" in o:
+                d["target_label_lists_compared"] += o["ok"].get("want_labels") is not None
+                for k, _ in c["cfg"]:
+                    if k not in DOCUMENTED_KEYS:
+                        d["unknown_key_accepted"][k] = d["unknown_key_accepted"].get(k, 0) + 1
             t = dict(c["cfg"]).get("evaluation_task")
             t = t if isinstance(t, str) else "<corrupt>"
             d["per_task"][t] = d["per_task"].get(t, 0) + 1
@@ -720,13 +856,17 @@ PF_KEYS = ["matching_threshold_list", "confidence_threshold_list"]
 LIST_VALUES = [None, [], [1.0], [1.0, 2.0, 3.0], [1.0, 2.0, 3.0, 4.0], [1.0, 2.0, 3.0, 4.0, 5.0], [1.0, "a", 2.0, 3.0], 5.0, "a", "abcd",
                (1.0, 2.0, 3.0, 4.0), [[1.0, 2.0, 3.0, 4.0]], [True, 0, 2, 3.5], [None, None, None, None], 0, [1.0, 2.0]]
 _EVAL = {}
+# evaluator configurations the per-frame configs are built from; the last two only for the 3D / 2D dispatch of the range rule
+EVAL_KINDS = {"3d": ("detection", "autoware"), "2d": ("detection2d", "autoware"), "tl": ("classification2d", "traffic_light"),
+              "fp3d": ("fp_validation", "autoware"), "trk2d": ("tracking2d", "autoware")}
+KINDS_3D = ("3d", "fp3d")  # pinned: detection and fp_validation are 3D tasks, the others 2D (docs/en/perception/design.md)
 
 
 def evaluator(kind):
     if kind not in _EVAL:
         from perception_eval.config import PerceptionEvaluationConfig
 
-        task, variant = {"3d": ("detection", "autoware"), "2d": ("detection2d", "autoware"), "tl": ("classification2d", "traffic_light")}[kind]
+        task, variant = EVAL_KINDS[kind]
         _EVAL[kind] = PerceptionEvaluationConfig(["/nonexistent"], base_frame(task), os.path.join(TMP_ROOT, f"r{os.getpid()}"),
                                                  base_config(task, variant), load_raw_data=False)
     return _EVAL[kind]
@@ -758,6 +898,15 @@ class FrameConfigCorr(Corr):
             ]
             for b in bases:
                 out.append({"cls": "critical", "eval": kind, "args": [[k, enc(v)] for k, v in b.items()], "valid": kind != "3d" or len(b) > 1})
+                if kind == "3d":
+                    # the 3D / 2D dispatch of "a range kind is needed" for two more tasks: bases and every edit of a range key
+                    for k2 in ("fp3d", "trk2d"):
+                        out.append({"cls": "critical", "eval": k2, "args": [[k, enc(v)] for k, v in b.items()], "valid": k2 == "trk2d" or len(b) > 1})
+                        for k in CRIT_KEYS[:4]:
+                            for v in LIST_VALUES:
+                                c = dict(b)
+                                c[k] = v
+                                out.append({"cls": "critical", "eval": k2, "args": [[kk, enc(vv)] for kk, vv in c.items()], "valid": False})
                 singles = [(k, v) for k in CRIT_KEYS for v in LIST_VALUES] + \
                           [("target_labels", v) for v in (None, [], ["car"], labels + ["bus"], "car", 5.0, [5.0])]
                 for k, v in singles:
@@ -810,14 +959,14 @@ class FrameConfigCorr(Corr):
         else:
             o = f"(Ok ({obs['ok']['n']}, {llit([self.intern.opt(x) for x in obs['ok']['lists']])}))"
         if case["cls"] == "critical":
-            return f"check_critical {blit(case['eval'] != '3d')} {n_all} {self.intern.cfg(case['args'])} {o}"
+            return f"check_critical {blit(case['eval'] not in KINDS_3D)} {n_all} {self.intern.cfg(case['args'])} {o}"
         return f"check_passfail {n_all} {self.intern.cfg(case['args'])} {o}"
 
     def coq_debug(self, case, obs):
         ev = evaluator(case["eval"])
         n_all = len(list(ev.label_converter.label_type))
         if case["cls"] == "critical":
-            return f"critical_accept {blit(case['eval'] != '3d')} {n_all} {cfg_lit(case['args'])}"
+            return f"critical_accept {blit(case['eval'] not in KINDS_3D)} {n_all} {cfg_lit(case['args'])}"
         return f"passfail_accept {n_all} {cfg_lit(case['args'])}"
 
     def oracle(self, case, obs):
@@ -843,7 +992,7 @@ class FrameConfigCorr(Corr):
                 return f"{what}: {k} = {v!r} is not the list that was given ({args.get(k)!r})"
         if case["cls"] == "critical":
             x, y, d, e = ok["lists"][:4]
-            if case["eval"] == "3d" and not ((x is not None and y is not None) or (d is not None and e is not None)):
+            if case["eval"] in KINDS_3D and not ((x is not None and y is not None) or (d is not None and e is not None)):
                 return f"{what}: 3D task accepted without a complete range kind"
             for k, val in zip(keys[4:], ok["lists"][4:]):
                 if args.get(k) is not None and val is None:
@@ -858,9 +1007,10 @@ class FrameConfigCorr(Corr):
         return len(case["args"]) > 1
 
     def distribution(self, cases, obs):
-        d = {"critical": 0, "passfail": 0, "accepted": 0, "errors": {}}
+        d = {"critical": 0, "passfail": 0, "accepted": 0, "errors": {}, "per_evaluator": {}}
         for c, o in zip(cases, obs):
             d[c["cls"]] += 1
+            d["per_evaluator"][c["eval"]] = d["per_evaluator"].get(c["eval"], 0) + 1
             if isinstance(o, dict) and "ok" in o:
                 d["accepted"] += 1
             elif isinstance(o, dict) and "error" in o:
@@ -999,6 +1149,259 @@ class LabelThresholdCorr(Corr):
         return bool(case["targets"]) and bool(case["thresholds"])
 
 
+# ---- SensingEvaluationConfig: the other anchored configuration class, instantiated
+#      (the model has no sensing constructor: the Coq term below composes the model's own pieces -- the translated
+#      sensing task list, set_task, label_count, check_frames -- in the order _EvaluationConfigBase.__init__ runs)
+SENSING_HEADER = (CONFIG_HEADER.replace("Model.Config.", "Model.Config Base.StrUtil Model.EnumParse Gen.Enums Gen.ConfigTables.") +
+                  "Definition sensing_accept (c : cfg) (frames : list string) : res nat :=\n"
+                  "  match lookup \"evaluation_task\" c with\n"
+                  "  | None => Err KeyError\n"
+                  "  | Some (Str s) =>\n"
+                  "      if mem_str s sensing_support_tasks then\n"
+                  "        match run_parser EvaluationTask_enum set_task s with\n"
+                  "        | Member k =>\n"
+                  "            bind (label_count (match lookup \"label_prefix\" c with None => (\"label_prefix\", Str \"autoware\") :: c | Some _ => c end)) (fun _ =>\n"
+                  "            bind (check_frames k frames) (fun _ => Ok (length frames)))\n"
+                  "        | _ => Err ValueError\n"
+                  "        end\n"
+                  "      else Err ValueError\n"
+                  "  | Some _ => Err ValueError\n"
+                  "  end.\n")
+SENSING_DEFAULTS = [("target_uuids", None), ("box_scale_0m", 1.0), ("box_scale_100m", 1.0), ("min_points_threshold", 1)]  # docs/en/sensing/design.md
+
+
+class SensingConfigCorr(Corr):
+    name = "sensing_config"
+    header = SENSING_HEADER
+    requires = ["Model/Config.vo", "Base/CaseUtil.vo"]
+    shard = 400
+
+    def cases(self, tier, rng):
+        tasks = [t for t in KEY_SPECIFIC["evaluation_task"] if t is not None] + ["Sensing", "SENSING", "", "enum:PREDICTION"]
+        frames = ["base_link", "map", "BASE_LINK", ["base_link"], ("map",), ["base_link", "map"], ("base_link", "map"),
+                  ["cam_front", "cam_back"], "cam_front", "lidar_top", "foo", [], (), ["base_link", "foo"], ["map", "map"]]
+        extras = [{}, {"target_uuids": ["u1", "u2"], "box_scale_0m": 1.5, "box_scale_100m": 2.0, "min_points_threshold": 3},
+                  {"box_scale_0m": 0.5}, {"label_prefix": "autoware"}, {"label_prefix": "traffic_light"}, {"label_prefix": "foo"},
+                  {"label_prefix": "blinker"}, {"label_prefix": None}, {"merge_similar_labels": True, "count_label_number": False},
+                  {"target_uuids": None, "min_points_threshold": 0}]
+        out = []
+
+        def mk(task, frame, extra, drop_task=False):
+            cfg = {} if drop_task else {"evaluation_task": task}
+            cfg.update(copy.deepcopy(extra))
+            ids = [frame] if isinstance(frame, str) else list(frame)
+            valid = (not drop_task and task in ("sensing", "enum:SENSING") and len(ids) == 1 and ids[0].lower() in ("base_link", "map")
+                     and cfg.get("label_prefix", "autoware") in ("autoware", "traffic_light"))
+            out.append({"cfg": [[k, enc(v)] for k, v in cfg.items()], "frame": enc(frame), "valid": valid})
+
+        core_tasks = ("sensing", "enum:SENSING", "Sensing", "detection", "enum:DETECTION", "foo", "fp_validation", "classification2d")
+        for t in tasks:
+            for fr in (frames if tier != "quick" or t in core_tasks else frames[:1] + frames[4:7]):
+                mk(t, fr, extras[0])
+        for fr in frames:
+            mk(None, fr, extras[1], drop_task=True)
+        for t in ("sensing", "enum:SENSING", "detection", "foo"):
+            for fr in ("base_link", ["map"], ("base_link", "map"), "cam_front"):
+                for e in extras[1:]:
+                    mk(t, fr, e)
+        if tier != "quick":
+            for t in tasks:
+                for fr in frames:
+                    for e in extras[1:]:
+                        mk(t, fr, e)
+        return out
+
+    def run_impl(self, case):
+        from perception_eval.config import SensingEvaluationConfig
+
+        cfg = {k: live(k, v) for k, v in case["cfg"]}
+        frame = dec(case["frame"])
+        try:
+            c = SensingEvaluationConfig(["/nonexistent"], frame, os.path.join(TMP_ROOT, f"r{os.getpid()}"), cfg, load_raw_data=False)
+        except Exception as e:  # noqa: BLE001
+            name = type(e).__name__
+            if name not in ERRORS:
+                raise
+            return {"error": name}
+        return {"ok": {"n_frames": len(c.frame_ids), "task": c.evaluation_task.value, "label_type": c.label_converter.label_type.__name__,
+                       "exposed": [[k, enc({**c.filtering_params, **c.metrics_params}.get(k, "<absent>"))] for k, _ in SENSING_DEFAULTS],
+                       "input_unchanged": [[k, enc(v)] for k, v in cfg.items()] == case["cfg"]
+                       and (not isinstance(frame, list) or enc(frame) == case["frame"])}}
+
+    def coq_term(self, case, obs):
+        o = f"(Err {obs['error']})" if "error" in obs else f"(Ok {obs['ok']['n_frames']})"
+        cfg = [[k, plain(k, v)] for k, v in case["cfg"]]
+        return f"res_eqb Nat.eqb (sensing_accept {cfg_lit(cfg)} {llit([slit(f) for f in frames_of(case)])}) {o}"
+
+    def coq_debug(self, case, obs):
+        cfg = [[k, plain(k, v)] for k, v in case["cfg"]]
+        return f"sensing_accept {cfg_lit(cfg)} {llit([slit(f) for f in frames_of(case)])}"
+
+    def oracle(self, case, obs):
+        cfg = {k: dec(plain(k, v)) for k, v in case["cfg"]}
+        what = f"SensingEvaluationConfig({cfg!r}, frame_id={dec(case['frame'])!r})"
+        if "ok" not in obs:
+            return f"{what}: valid sensing configuration rejected with {obs['error']}" if case.get("valid") else None
+        ok = obs["ok"]
+        task = cfg.get("evaluation_task")
+        if "evaluation_task" not in cfg or not isinstance(task, str) or task not in supported("sensing"):
+            return f"{what}: accepted although evaluation_task={task!r} is not a task of SensingEvaluationManager {supported('sensing')}"
+        if ok["task"] != task:
+            return f"{what}: evaluation_task exposed as {ok['task']!r}"
+        if ok["n_frames"] != 1:
+            return f"{what}: sensing (a 3D task) accepted with {ok['n_frames']} frame ids"
+        for (k, default), (_, val) in zip(SENSING_DEFAULTS, ok["exposed"]):
+            want = cfg.get(k, default)
+            if not same(dec(val), want):
+                return f"{what}: {k} exposed as {dec(val)!r}, {'given' if k in cfg else 'documented default'} {want!r}"
+        if "label_prefix" not in cfg and ok["label_type"] != "AutowareLabel":
+            return f"{what}: label_prefix not given (documented default 'autoware') but labels are {ok['label_type']}"
+        if not ok["input_unchanged"]:
+            return f"{what}: the caller's dictionary / frame list was modified"
+        return None
+
+    def nontrivial(self, case, obs):
+        return True
+
+    def distribution(self, cases, obs):
+        d = {"cases": len(cases), "accepted": 0, "errors": {}, "task_as_enum_member": 0, "frames_as_tuple": 0}
+        for c, o in zip(cases, obs):
+            d["task_as_enum_member"] += any(is_enum_task(k, v) for k, v in c["cfg"])
+            d["frames_as_tuple"] += isinstance(c["frame"], dict)
+            if isinstance(o, dict) and "ok" in o:
+                d["accepted"] += 1
+            elif isinstance(o, dict) and "error" in o:
+                d["errors"][o["error"]] = d["errors"].get(o["error"], 0) + 1
+        cleanup_tmp()
+        return d
+
+
+# ---- check_thresholds / check_nested_thresholds called directly (set_thresholds only hands them pre-normalised values)
+def normal_form(spec, n, nest):
+    """Is `spec` already one real value per label (flat) / non-empty rows of one real value per label (nested)?"""
+    if not isinstance(spec, list):
+        return False
+    if not nest:
+        return len(spec) == n and all(is_real(t) for t in spec)
+    return len(spec) > 0 and n >= 1 and all(isinstance(r, list) and len(r) == n and all(is_real(t) for t in r) for r in spec)
+
+
+class CheckersCorr(Corr):
+    name = "check_thresholds"
+    header = ThresholdCorr.header
+    requires = ThresholdCorr.requires
+    shard = 400
+
+    def cases(self, tier, rng):
+        thorough = tier != "quick"
+        ns = list(range(0, 5 if thorough else 4))
+        specs = [[[1.0, "a"]], [[[1.0]]], 1.0, [], [[]], [[], []], [[2.0], [3.0, 4.0]], [1.0, [2.0]], [[1.0, 2.0, 3.0]], [1.0, 2.0], "ab", None,
+                 (1.0, 2.0), [(1.0, 2.0)], ([1.0, 2.0],), [[1.0, 2.0], (1.0, 2.0)], [[1.0, 2.0], "ab"], [[1.0, 2.0], None], [[1.0, 2.0], 3.0]]
+        # already normal values for every n, and their near misses: a short / long / empty / non-numeric / non-list row
+        vals = [1.0, 2, True, 0.5]
+        for n in ns + [5]:
+            for k in (1, 2, 3, 1, 2, 4):
+                rows = [[rng.choice(vals) for _ in range(n)] for _ in range(k)]
+                specs.append(copy.deepcopy(rows))
+                specs.append(list(rows[0]))
+                if k == 4:
+                    continue
+                i = rng.randrange(k)
+                for bad in (rows[i] + [1.0], rows[i][:-1], [], rows[i][:-1] + ["a"], rows[i][:-1] + [None], rows[i][:-1] + [[1.0]],
+                            tuple(rows[i]), "a" * n, None, 1.0):
+                    r2 = copy.deepcopy(rows)
+                    r2[i] = bad
+                    specs.append(r2)
+        L = 3
+        flat = [list(t) for k in range(0, L + 1) for t in itertools.product(ATOMS, repeat=k)]
+        M = list(SCALARS) + [list(t) for k in range(0, 3) for t in itertools.product(ATOMS, repeat=k)]
+        pairs = [[a, b] for a in M for b in M]
+        singles = [[r] for r in flat]
+        if thorough:
+            specs += flat + singles + pairs
+        else:
+            specs += rng.sample(flat, 100) + rng.sample(singles, 60) + rng.sample(pairs, 100)
+        t = ThresholdCorr()
+        for _ in range(1500 if thorough else 60):
+            specs.append(t._random_spec(rng, 0))
+        seen, out = set(), []
+        for s in specs:
+            j = enc(s)
+            key = core.canon(j)
+            if key not in seen:
+                seen.add(key)
+                out.append({"spec": j, "ns": ns if depth(j) <= 2 and not has_tuple(j) else sorted(set(ns) | {5})})
+        return out
+
+    def run_impl(self, case):
+        from perception_eval.common.threshold import ThresholdError, check_nested_thresholds, check_thresholds
+
+        res = []
+        for n in case["ns"]:
+            for nest in (False, True):
+                spec = dec(case["spec"])
+                try:
+                    out = (check_nested_thresholds if nest else check_thresholds)(spec, n)
+                except ThresholdError:
+                    res.append({"n": n, "nest": nest, "error": "ThresholdError"})
+                    continue
+                except TypeError:
+                    res.append({"n": n, "nest": nest, "error": "TypeError"})
+                    continue
+                res.append({"n": n, "nest": nest, "ok": enc(out), "same_object": out is spec, "unchanged": enc(spec) == case["spec"]})
+        return res
+
+    def coq_term(self, case, obs):
+        items = [f"({o['n']}, {blit(o['nest'])}, {ThresholdCorr._res(o)})" for o in obs]
+        return ("forallb (fun x : nat * bool * res pyval => match x with (n, nest, o) => obs_eqb ((if nest then check_nested_thresholds else check_thresholds) "
+                f"{pv(case['spec'])} n) o end) {llit(items)}")
+
+    def coq_debug(self, case, obs):
+        return ("map (fun x : nat * bool => (if snd x then check_nested_thresholds else check_thresholds) " + pv(case["spec"]) + " (fst x)) " +
+                llit([f"({o['n']}, {blit(o['nest'])})" for o in obs]))
+
+    def oracle(self, case, obs):
+        spec = dec(case["spec"])
+        for o in obs:
+            n, nest = o["n"], o["nest"]
+            what = f"{'check_nested_thresholds' if nest else 'check_thresholds'}({spec!r}, {n})"
+            if "ok" in o:
+                out = dec(o["ok"])
+                # whatever passes a checker holds one real value per label (tuples included)
+                if nest:
+                    good = isinstance(out, (list, tuple, str)) and all(
+                        isinstance(r, list) and len(r) == n and n >= 1 and all(is_real(x) for x in r) for r in out)
+                else:
+                    good = isinstance(out, (list, tuple, str)) and len(out) == n and all(is_real(x) for x in out)
+                if not good:
+                    return f"{what} passed {out!r}: not {'rows of ' if nest else ''}exactly {n} real values"
+                if not o["same_object"] or not o["unchanged"]:
+                    return f"{what}: a checker has to hand back the very list it was given, unchanged (returned {out!r})"
+            if has_tuple(case["spec"]) or isinstance(spec, str) or (nest and spec == []):
+                continue  # tuples / strings are outside the documented types; the empty list of rows is not specified
+            if normal_form(spec, n, nest) and "ok" not in o:
+                return f"{what}: a list already holding one real value per label was rejected with {o['error']}"
+            if not normal_form(spec, n, nest) and "ok" in o:
+                return f"{what}: malformed list passed the check"
+        return None
+
+    def nontrivial(self, case, obs):
+        return depth(case["spec"]) >= 1
+
+    def distribution(self, cases, obs):
+        d = {"specs": len(cases), "calls": 0, "passed_flat": 0, "passed_nested": 0, "ThresholdError": 0, "TypeError": 0}
+        for c, ob in zip(cases, obs):
+            if not isinstance(ob, list):
+                continue
+            for o in ob:
+                d["calls"] += 1
+                if "ok" in o:
+                    d["passed_nested" if o["nest"] else "passed_flat"] += 1
+                else:
+                    d[o["error"]] += 1
+        return d
+
+
 class C15(Prop):
     id = "C15"
     props_file = "Props/C15.v"
@@ -1015,7 +1418,12 @@ class C15(Prop):
                   "per-label lists of len(target_labels) real numbers; per-frame configurations hold only checked lists. The full acceptance "
                   "statement is proved for the documented behaviour and refuted for today's code with the two recorded witnesses (F7, F8); "
                   "the exact guard is proved. The models are compared with the real functions on an exhaustive family of threshold "
-                  "specifications and on every 1-key (sampled 2-key) edit of valid dictionaries for every task.")
+                  "specifications and on every 1-key (sampled 2-key) edit of valid dictionaries for every task. Runtime (oracle) only, not "
+                  "theorems: the accepted task is in a PINNED list of the manager's tasks (corpus/C15/golden/supported_tasks.json), not the "
+                  "class's own list; the target labels of the configuration, filtering_params, metrics_params, MetricsScoreConfig and every "
+                  "metrics sub-config are one list equal to the given names converted one by one in the order given; SensingEvaluationConfig "
+                  "is instantiated (accepted only for task 'sensing' with exactly one frame id; documented defaults exposed); "
+                  "check_thresholds / check_nested_thresholds called directly pass exactly the already normal lists and return the same object.")
     level_note = ("Trusted: Coq kernel+vm_compute; translator/py_to_coq.py for Gen/*.v; the hand-written models (tied by this run's "
                   "correspondence, incl. an ast check of the key tables); values outside the universe (numpy scalars, nan/inf, dict, objects) "
                   "are not modelled; exception classes are modelled, messages are not. The F7/F8 'repaired' variants of the model are one "
@@ -1025,7 +1433,16 @@ class C15(Prop):
             "n in 0..3 (0..4) and both nest flags, plus idempotence re-run; config: F7/F8 witnesses, corpus, 18 valid bases (8 tasks x 2 "
             "variants + 2 unsupported tasks), 9 frame-id variants, every delete/None/corrupt(15 values or key-specific)/add(19 keys) of one "
             "key, all range-key pairs, sampled other pairs; per-frame configs: 3 evaluator configs x 3 bases x 6 keys x 16 values + pairs; "
-            "non-trivial = spec of depth >= 1 / every config case")
+            "non-trivial = spec of depth >= 1 / every config case; "
+            "config also: evaluation_task as an EvaluationTask member (6 members), frame ids as tuples (4 variants per base), unknown keys "
+            "that are not threshold-like (max_x_postion, min_points_number, box_scale_0m; class F8), target-label lists with repeated / merging / "
+            "unsorted names x merge on/off with per-label values valid for any label count (label NAMES and order observed in every "
+            "part of the configuration), supported tasks pinned in corpus/C15/golden; "
+            "sensing_config: SensingEvaluationConfig over 24 task values (str / enum member / corrupt / missing) x 15 frame-id variants "
+            "(str, list, tuple; 0-2 ids) + 9 parameter sets (documented keys, label_prefix variants); "
+            "check_thresholds: both checkers directly on already-normal lists for n in 0..3,5 (1-4 rows), 10 near misses of each (long / short / "
+            "empty / non-numeric / non-list / tuple row), samples of the set_thresholds family, n in 0..3 (0..4); "
+            "per-frame configs also on fp_validation and tracking2d evaluators (range keys only)")
     assumptions = [
         "Python values restricted to int/float (finite), bool, str, None, list, tuple",
         "number of target labels >= 1 for idempotence (set_target_lists never returns an empty list; C15_zero_labels states the n = 0 behaviour)",
@@ -1039,7 +1456,7 @@ class C15(Prop):
     ]
 
     def correspondences(self):
-        return [ThresholdCorr(), LabelThresholdCorr(), ConfigCorr(), FrameConfigCorr(), KeysCorr()]
+        return [ThresholdCorr(), LabelThresholdCorr(), ConfigCorr(), FrameConfigCorr(), KeysCorr(), SensingConfigCorr(), CheckersCorr()]
 
     # ---- known findings: matched by id + call site + input class, never by message text alone
     def _known_class(self, corr_name, case, obs):
@@ -1050,6 +1467,10 @@ class C15(Prop):
 
     def known_match(self, finding, corr_name, case, obs, msg):
         fid = finding.get("id")
+        if fid == "F8" and switches()["unknown"]:
+            # the recorded finding is "unknown keys are silently dropped": once the recorded witness is rejected, an
+            # unknown key that still gets through (a typo of a filter key, say) is a partial repair, not that finding
+            return False
         return fid in ("F7", "F8") and self._known_class(corr_name, case, obs) == fid
 
     def known_probe(self, finding):
